@@ -198,7 +198,7 @@ def shrink_t1(ctx, case, first_bad):
     tries = 0
     i = 1
     while i < len(best.ops) - 1 and tries < 10:
-        if best.ops[i][0] in ("n", "b", "i"):
+        if best.ops[i][0] in ("n", "b", "i", "j"):
             cand = Case(best.cid, best.ops[:i] + best.ops[i + 1:], best.dump, best.meta)
             tries += 1
             if fails(cand):
@@ -284,7 +284,7 @@ def run_check(prop, pid, tier, seed):
                 # split between the two running totals can differ while every output agrees: compare outputs only
                 for c_ in cases:
                     if c_.meta.get("ind") == "MFI" and c_.dump and any(
-                            isinstance(v, float) and (v != v or abs(v) > 1e300) for o in c_.ops for v in o[2:] if o[0] in ("n", "b", "i")):
+                            isinstance(v, float) and (v != v or abs(v) > 1e300) for o in c_.ops for v in o[2:] if o[0] in ("n", "b", "i", "j")):
                         c_.dump = ()
                 run_harness(ctx.binary, cases, pid)
                 # --- T1: bit-exact agreement with the float instance of the model
